@@ -204,7 +204,7 @@ def sym_setup(vm, job):
 
 def jobs(tier):
     out = []
-    ns = [1, 2, 3, 4, 5, 6, 7, 8] if tier == 'quick' else list(range(1, 17)) + [31, 32, 33]
+    ns = [1, 2, 3, 4, 5, 6, 7, 8] if tier == 'quick' else list(range(1, 17)) + [20]
     for n in ns:
         out.append(dict(name=f'genuine-{n}', family='genuine', fn='genuine', args=(n,), loop_bound=80, max_depth=40, cost=n * n,
                         bounds=dict(block_transactions=n, index='every index', leaves='symbolic 32-byte hashes, distinct'),
